@@ -30,6 +30,7 @@ LNext(L(_, _, _)) ==
        \/ DLoadReject(d) /\ L("DLoadReject", d, cur[d])
        \/ DLoadPass(d) /\ L("DLoadPass", d, cur[d])
        \/ DLoadPassLagged(d) /\ L("DLoadPassLagged", d, cur[d])
+       \/ DReserve(d) /\ L("DReserve", d, cur[d])
        \/ DSpawn(d) /\ L("DSpawn", d, cur[d])
        \/ DSend(d) /\ L("DSend", d, cur[d])
   \/ \E w \in Workers :
